@@ -57,10 +57,11 @@ func (mr *Mixer[E]) Reset() error {
 	if err := mr.src1.reset(); err != nil {
 		return err
 	}
+	// src1 is at its beginning now: a decision made for the old heads is void
+	mr.st = 0
 	if err := mr.src2.reset(); err != nil {
 		return fmt.Errorf("cannot reset src2 %s: %w", err.Error(), errors.ErrDataLoss)
 	}
-	mr.st = 0
 	return nil
 }
 
@@ -129,11 +130,16 @@ func (mr *Mixer[E]) testFunc() bool {
 }
 
 func (sd *srcDesc[E]) reset() error {
+	rs, ok := sd.it.(golibs.Reseter)
+	if !ok {
+		return errors.ErrUnimplemented
+	}
+	if err := rs.Reset(); err != nil {
+		return err
+	}
+	// the look-ahead is dropped only when the source really went back to its beginning,
+	// a refused reset must not lose the element already taken from the source
 	sd.load = false
 	sd.e = *new(E)
-	rs, ok := sd.it.(golibs.Reseter)
-	if ok {
-		return rs.Reset()
-	}
-	return errors.ErrUnimplemented
+	return nil
 }
